@@ -628,13 +628,13 @@ def _register(g):
     oset(n + ".update_timer_and_error", ["C10", "C12", "C19"], [_fn(g, "update_ac_timer_status"), _fn(g, "update_ac_error_info")])(lambda h: _update_timer_and_error(h, g))
     oset(n + ".zone_updated-and-subscriptions", ["C12"], [_fn(g, "_zone_updated"), _fn(g, "subscribe"), _fn(g, "unsubscribe"),
                                                           _fn(g, "subscribe_ac_state"), _fn(g, "unsubscribe_ac_state")])(lambda h: _zone_updated(h, g))
-    oset(n + ".set_power", ["C04", "C11", "C02", "C19"], [_fn(g, "set_power"), _fn(g, "_send_ac_control_message")])(lambda h: _set_power(h, g))
-    oset(n + ".set_mode", ["C04", "C11", "C02", "C19"], [_fn(g, "set_mode"), _fn(g, "_send_ac_control_message")])(lambda h: _set_mode(h, g))
-    oset(n + ".set_fan_speed", ["C04", "C11", "C02", "C19"], [_fn(g, "set_fan_speed"), _fn(g, "_send_ac_control_message")])(lambda h: _set_fan(h, g))
-    oset(n + ".set_target_temperature", ["C04", "C11", "C02", "C19"], [_fn(g, "set_target_temperature"), _fn(g, "_send_ac_control_message"),
+    oset(n + ".set_power", ["C04", "C11", "C02", "C19", "C07"], [_fn(g, "set_power"), _fn(g, "_send_ac_control_message")])(lambda h: _set_power(h, g))
+    oset(n + ".set_mode", ["C04", "C11", "C02", "C19", "C07"], [_fn(g, "set_mode"), _fn(g, "_send_ac_control_message")])(lambda h: _set_mode(h, g))
+    oset(n + ".set_fan_speed", ["C04", "C11", "C02", "C19", "C07"], [_fn(g, "set_fan_speed"), _fn(g, "_send_ac_control_message")])(lambda h: _set_fan(h, g))
+    oset(n + ".set_target_temperature", ["C04", "C11", "C02", "C19", "C07"], [_fn(g, "set_target_temperature"), _fn(g, "_send_ac_control_message"),
                                                                       _fn(g, "min_target_temperature"), _fn(g, "max_target_temperature")],
          assumptions=A + ["console limits are ordered (min <= max) and representable (AT4: 0..63, AT5: 10..35 degC)"])(lambda h: _set_target(h, g))
-    oset(n + ".quick_timers", ["C04", "C11", "C02", "C19"], [_fn(g, "set_quick_timer"), _fn(g, "clear_quick_timer"), _fn(g, G["timer_send"])])(lambda h: _timers(h, g))
+    oset(n + ".quick_timers", ["C04", "C11", "C02", "C19", "C07"], [_fn(g, "set_quick_timer"), _fn(g, "clear_quick_timer"), _fn(g, G["timer_send"])])(lambda h: _timers(h, g))
 
 
 _register(4)
